@@ -196,6 +196,9 @@ static std::string jesc(const std::string& s) {
 void set_result_fd(int fd) { G.result_fd = fd; }
 void set_deadlock_handler(deadlock_handler h) { G.on_deadlock = h; }
 void set_budget_verdict(const char* status, const char* cls) { G.budget_status = status; G.budget_class = cls; }
+static char g_ctx_tag[200];
+void set_context_tag(const char* tag) { snprintf(g_ctx_tag, sizeof g_ctx_tag, "%s", tag); }
+const char* context_tag() { return g_ctx_tag; }
 void set_finish_hook(finish_hook h) { G.on_finish = h; }
 void set_record_trace(bool on) { G.record = on; }
 void set_replay_trace(const uint32_t* pairs, size_t n) { G.rp = pairs; G.rpn = n; G.rpi = 0; G.replay = true; }
@@ -214,7 +217,7 @@ void finish(const char* status, const char* cls, const char* fmt, ...) {
     char b[256];
     snprintf(b, sizeof b, "\"seed\":%llu,\"status\":\"%s\",\"class\":\"%s\",", (unsigned long long)cfg.seed, status, cls);
     o += b;
-    o += "\"msg\":\"" + jesc(msg) + "\",";
+    o += "\"msg\":\"" + jesc(msg) + (g_ctx_tag[0] && strcmp(status, "ok") ? jesc(std::string(" ") + g_ctx_tag) : std::string()) + "\",";
     snprintf(b, sizeof b, "\"steps\":%llu,\"switches\":%llu,\"sim_ns\":%llu,\"hash\":\"%016llx\",\"tasks\":%d,",
              (unsigned long long)G.steps, (unsigned long long)G.switches, (unsigned long long)G.now,
              (unsigned long long)G.hash, G.ntasks);
